@@ -195,7 +195,56 @@ fn triangles(req: &Value) -> Value {
     }
 }
 
+/// C18 P5: find_weighted_path against the cheapest simple directed walk (weights >= 0)
+fn weighted_path(req: &Value) -> Value {
+    let g = GraphEngine::new();
+    let wn: Vec<u64> = req["nodes"].as_array().into_iter().flatten().filter_map(Value::as_u64).collect();
+    let nodes: Vec<u64> = wn.iter().map(|_| g.create_node("N", HashMap::new()).unwrap()).collect();
+    let node_of = |w: u64| wn.iter().position(|x| *x == w).map_or(900_000 + (w % 1000), |i| nodes[i]);
+    let ws: Vec<f64> = req["weight_bits"].as_array().into_iter().flatten().filter_map(Value::as_u64).map(f64::from_bits).collect();
+    let mut es: Vec<(u64, u64, u64, bool, f64)> = vec![];
+    for (j, e) in req["edges"].as_array().into_iter().flatten().enumerate() {
+        let (a, b, d) = (nodes[e[0].as_u64().unwrap_or(0) as usize], nodes[e[1].as_u64().unwrap_or(0) as usize], e[3].as_bool().unwrap_or(true));
+        let mut p = HashMap::new();
+        p.insert("weight".to_string(), graph_engine::PropertyValue::Float(ws.get(j).copied().unwrap_or(1.0)));
+        es.push((g.create_edge(a, b, "T", p, d).unwrap(), a, b, d, ws.get(j).copied().unwrap_or(1.0)));
+    }
+    let (from, to) = (node_of(req["arg1"].as_u64().unwrap_or(0)), node_of(req["arg2"].as_u64().unwrap_or(0)));
+    fn go(es: &[(u64, u64, u64, bool, f64)], cur: u64, to: u64, seen: &mut Vec<u64>, cost: f64, best: &mut Option<f64>) {
+        if cur == to { if best.map_or(true, |b| cost < b) { *best = Some(cost); } return; }
+        for (_, f, t, d, w) in es {
+            let mut steps = vec![];
+            if *f == cur { steps.push(*t); }
+            if !*d && *t == cur && *f != *t { steps.push(*f); }
+            for n in steps { if !seen.contains(&n) { seen.push(n); go(es, n, to, seen, cost + w, best); seen.pop(); } }
+        }
+    }
+    let mut best = None;
+    go(&es, from, to, &mut vec![from], 0.0, &mut best);
+    let mut bad: Vec<String> = vec![];
+    let outcome = match g.find_weighted_path(from, to, "weight") {
+        Ok(p) => {
+            let mut sum = 0.0;
+            for (i, w) in p.nodes.windows(2).enumerate() {
+                match es.iter().find(|(id, f, t, d, _)| Some(id) == p.edges.get(i) && ((*f == w[0] && *t == w[1]) || (!*d && *f == w[1] && *t == w[0]))) {
+                    Some(e) => sum += e.4,
+                    None => bad.push(format!("step {} -> {} via edge {:?} is not an edge in that direction", w[0], w[1], p.edges.get(i))),
+                }
+            }
+            if p.nodes.first() != Some(&from) || p.nodes.last() != Some(&to) { bad.push("path does not run from `from` to `to`".into()); }
+            if sum != p.total_weight { bad.push(format!("total_weight {} but the edges add up to {sum}", p.total_weight)); }
+            match best { Some(b) if b < p.total_weight => bad.push(format!("total {} although a walk of weight {b} exists", p.total_weight)), None => bad.push("a path was returned although none exists".into()), _ => {} }
+            json!({"ok": {"nodes": p.nodes, "edges": p.edges, "total": p.total_weight}})
+        }
+        Err(e) => { if best.is_some() { bad.push(format!("{e} although a walk exists")); } json!({"err": e.to_string()}) }
+    };
+    json!({"outcome": outcome, "cheapest": best, "problems": bad, "violates": !bad.is_empty()})
+}
+
 pub fn handle(op: &str, req: &Value) -> Option<Value> {
+    if op == "graph_weighted_path" {
+        return Some(weighted_path(req));
+    }
     if op == "graph_triangles" {
         return Some(triangles(req));
     }
